@@ -39,6 +39,17 @@ type c20query struct {
 	ops   []int
 	table int
 	where bool
+	// failure family: every operation wrapped in AWAIT (evaluation deferred to the end of the
+	// query, in the same order); a RAISE_WHEN(a = raiseA, 'boom') inserted before operation raiseAt
+	await    bool
+	raisePos int // 0: none; k: before operation k-1 (len(ops)+1: after the last one)
+	raiseA   float64
+}
+
+// c20fail is one case of the failure family: a select list and a mode.
+type c20fail struct {
+	ops   []int
+	await bool
 }
 
 type c20 struct {
@@ -49,6 +60,8 @@ type c20 struct {
 	inits   []map[string]any
 	queries []c20query // the menu of follow-up queries
 	depth   int
+	fails   []c20fail
+	peeks   []string
 }
 
 func init() { core.Register("C20", func() core.Prop { return &c20{} }) }
@@ -92,6 +105,23 @@ func (p *c20) Init(tier string) {
 	if tier == "thorough" {
 		p.depth = 3
 	}
+	for _, l := range p.short {
+		sub := false
+		for _, oi := range l {
+			if c20Ops[oi].sub || strings.Contains(c20Ops[oi].val, "GETVAR") {
+				sub = true
+			}
+		}
+		if sub {
+			continue
+		}
+		p.fails = append(p.fails, c20fail{ops: l}, c20fail{ops: l, await: true})
+	}
+	p.peeks = []string{
+		"SELECT a, SETVAR('k1', a), SPINASYNC.HPEEK('k1'), GETVAR('k1') AS g FROM t",
+		"SELECT a, SETVAR('k1', a), ASYNC.HPEEK('K2') AS p, GETVAR('k1') AS g FROM t",
+		"SELECT a, GETVAR('k1') AS g0, SPINASYNC.HPOKE('K2', a), SETVAR('k1', a), GETVAR('k1') AS g FROM t",
+	}
 	for _, l := range menu {
 		for t := range p.tables {
 			for _, w := range []bool{false, true} {
@@ -104,12 +134,29 @@ func (p *c20) Init(tier string) {
 	}
 }
 
-func (p *c20) NumCases() int { return len(p.lists) }
+func (p *c20) NumCases() int { return len(p.lists) + len(p.fails) + len(p.peeks) }
 
 func (p *c20) sql(q *c20query) string {
 	var items []string
+	wrap := func(e string) string {
+		if q.await {
+			return "AWAIT(" + e + ")"
+		}
+		return e
+	}
 	for i, oi := range q.ops {
 		o := c20Ops[oi]
+		if i+1 == q.raisePos {
+			items = append(items, wrap(fmt.Sprintf("RAISE_WHEN(a = %v, 'boom')", q.raiseA)))
+		}
+		if q.await && !o.sub {
+			if o.set {
+				items = append(items, fmt.Sprintf("AWAIT(SETVAR('%s', %s))", o.key, o.val))
+			} else {
+				items = append(items, fmt.Sprintf("AWAIT(GETVAR('%s')) AS g%d", o.key, i))
+			}
+			continue
+		}
 		if o.sub {
 			items = append(items, fmt.Sprintf("(SELECT SETVAR('%s', %s), 1 AS one FROM dual) AS s%d", o.key, o.val, i))
 		} else if o.set {
@@ -117,6 +164,9 @@ func (p *c20) sql(q *c20query) string {
 		} else {
 			items = append(items, fmt.Sprintf("GETVAR('%s') AS g%d", o.key, i))
 		}
+	}
+	if q.raisePos == len(q.ops)+1 {
+		items = append(items, wrap(fmt.Sprintf("RAISE_WHEN(a = %v, 'boom')", q.raiseA)))
 	}
 	s := "SELECT " + strings.Join(items, ", ") + " FROM t"
 	if q.where {
@@ -126,13 +176,27 @@ func (p *c20) sql(q *c20query) string {
 }
 
 func (p *c20) Describe(i int) any {
+	if i >= len(p.lists)+len(p.fails) {
+		return map[string]any{"query": p.peeks[i-len(p.lists)-len(p.fails)], "explored": "every schedule within 2 (thorough 3) preemptions on tables of 1-3 rows"}
+	}
+	if i >= len(p.lists) {
+		f := p.fails[i-len(p.lists)]
+		q := c20query{ops: f.ops, table: 2, await: f.await, raisePos: 1, raiseA: 20}
+		return map[string]any{"query_shape": p.sql(&q), "explored": "RAISE_WHEN at every position of the select list x firing on every row or none x 3 tables x 3 initial maps; followed by a query that reads both keys"}
+	}
 	q := c20query{ops: p.lists[i], table: 2}
 	return map[string]any{"first_query": p.sql(&q), "then": fmt.Sprintf("breadth-first over %d follow-up queries (op sequences of length <= 2 x 4 tables x with/without WHERE) to depth %d from every distinct reached state, starting from 3 initial maps", len(p.queries), p.depth)}
 }
 
 // model applies q to vars (in place) and returns the expected rendered rows.
 func (p *c20) model(q *c20query, vars map[string]any) []string {
-	var out []string
+	rows, _ := p.modelF(q, vars)
+	return rows
+}
+
+// modelF is model for queries that may raise: evaluation stops at the first RAISE_WHEN that fires
+// (failed = true, no rows); the writes made before it stay.
+func (p *c20) modelF(q *c20query, vars map[string]any) (out []string, failed bool) {
 	for _, r := range p.tables[q.table] {
 		row := r.(map[string]any)
 		if q.where && !(row["a"].(float64) > 10) {
@@ -141,6 +205,9 @@ func (p *c20) model(q *c20query, vars map[string]any) []string {
 		o := map[string]any{}
 		for i, oi := range q.ops {
 			op := c20Ops[oi]
+			if i+1 == q.raisePos && row["a"] == q.raiseA {
+				return nil, true
+			}
 			if op.sub {
 				vars[op.key] = 7.0
 				o[fmt.Sprintf("s%d", i)] = map[string]any{"one": 1.0}
@@ -165,9 +232,12 @@ func (p *c20) model(q *c20query, vars map[string]any) []string {
 				o[fmt.Sprintf("g%d", i)] = vars[op.key] // missing -> nil
 			}
 		}
+		if q.raisePos == len(q.ops)+1 && row["a"] == q.raiseA {
+			return nil, true
+		}
 		out = append(out, gq.Render(o))
 	}
-	return out
+	return out, false
 }
 
 // step runs q on the real engine with the shared map.
@@ -176,8 +246,157 @@ func (p *c20) step(q *c20query, vars map[string]any) *gq.Out {
 	return gq.Run(doc, p.sql(q), genql.WithVars(vars))
 }
 
+func init() {
+	// HPEEK(k): a reader running next to the query's own evaluation; HPOKE(k, v): a writer
+	genql.RegisterFunction("hpeek", func(q *genql.Query, cur genql.Map, fo *genql.FunctionOptions, args []any) (any, error) {
+		vrt.Yield()
+		return genql.GetVarFunc(q, cur, fo, args)
+	})
+	genql.RegisterFunction("hpoke", func(q *genql.Query, cur genql.Map, fo *genql.FunctionOptions, args []any) (any, error) {
+		vrt.Yield()
+		return genql.SetVarFunc(q, cur, fo, args)
+	})
+}
+
+// runFail: a select list with a RAISE_WHEN at every position, firing on every row (or none), with
+// every operation evaluated immediately or deferred with AWAIT: evaluation stops at the failure, the
+// writes made before it are in the caller's map, and a later query observes exactly those.
+func (p *c20) runFail(r *core.CaseResult, f *c20fail) {
+	follow := c20query{ops: []int{3, 4}, table: 1}
+	mode := "immediate"
+	if f.await {
+		mode = "deferred"
+	}
+	for init := range p.inits {
+		for t := 1; t < len(p.tables); t++ {
+			as := []float64{99}
+			for _, row := range p.tables[t] {
+				as = append(as, row.(map[string]any)["a"].(float64))
+			}
+			for pos := 1; pos <= len(f.ops)+1; pos++ {
+				for _, a := range as {
+					q := c20query{ops: f.ops, table: t, await: f.await, raisePos: pos, raiseA: a}
+					impl, mod := gq.CloneMap(p.inits[init]), gq.CloneMap(p.inits[init])
+					want, failed := p.modelF(&q, mod)
+					out := p.step(&q, impl)
+					r.Execs++
+					r.Transitions++
+					cs := map[string]any{"initial_vars": p.inits[init], "query": p.sql(&q), "table": p.tables[t]}
+					what := fmt.Sprintf("vars %s, %s on %s", gq.Render(p.inits[init]), p.sql(&q), gq.Render(p.tables[t]))
+					if out.Panic != "" || out.GPanic != "" {
+						r.Fail("C20|failure-"+mode+"|panic", fmt.Sprintf("%s: %s%s", what, out.Panic, out.GPanic), cs)
+						continue
+					}
+					if failed != (out.Err != nil) {
+						r.Fail("C20|failure-"+mode+"|"+out.Status(), fmt.Sprintf("%s: ended with %s (%v), the model says failed=%v", what, out.Status(), out.Err, failed), cs)
+						continue
+					}
+					if !failed {
+						if got := gq.RenderRows(out.Rows); !gq.SameSeq(got, want) {
+							r.Fail("C20|failure-"+mode+"|rows", fmt.Sprintf("%s: rows %v, register model %v", what, got, want), cs)
+							continue
+						}
+					} else {
+						r.Nontrivial = true
+					}
+					if gq.Render(impl) != gq.Render(mod) {
+						r.Fail("C20|failure-"+mode+"|final-map", fmt.Sprintf("%s (failed=%v): caller's map is %s, register model (writes up to the failure) %s", what, failed, gq.Render(impl), gq.Render(mod)), cs)
+						continue
+					}
+					want2 := p.model(&follow, mod)
+					out2 := p.step(&follow, impl)
+					r.Execs++
+					if out2.Failed() || !gq.SameSeq(gq.RenderRows(out2.Rows), want2) {
+						r.Fail("C20|failure-"+mode+"|later-query", fmt.Sprintf("%s, then %s: %s %v rows %v, register model %v", what, p.sql(&follow), out2.Status(), out2.Err, gq.RenderRows(out2.Rows), want2), cs)
+						continue
+					}
+					r.Outcomes = append(r.Outcomes, fmt.Sprintf("%v:%s", failed, gq.Render(impl)))
+				}
+			}
+		}
+	}
+	r.States = int64(len(r.Outcomes))
+}
+
+// runPeek: the query's own reads and writes next to ASYNC / SPINASYNC calls that read or write the
+// same store: under every schedule within the bound, GETVAR right after SETVAR on the evaluating
+// goroutine returns what was just written, and the caller's map ends with the last write.
+func (p *c20) runPeek(r *core.CaseResult, sql string) {
+	bound := 2
+	if p.tier == "thorough" {
+		bound = 3
+	}
+	r.BoundDone = bound
+	for t := 1; t < len(p.tables); t++ {
+		var vars map[string]any
+		cfg := vrt.Config{Sched: true, Quiet: true}
+		vrt.SetQuiet(genql.VerifSelectorMutex())
+		st := gq.ExploreQuery(cfg, bound, 400000,
+			func() (map[string]any, string, []genql.QueryOption) {
+				vars = map[string]any{"K2": "seed"}
+				return map[string]any{"t": gq.Clone(p.tables[t])}, sql, []genql.QueryOption{genql.WithVars(vars), genql.UnReportedErrors(func(error) {})}
+			},
+			func(o *gq.Out, prefix []int32) bool {
+				cs := map[string]any{"sql": sql, "table": p.tables[t], "choices": prefix}
+				what := fmt.Sprintf("%s on %s, schedule %v", sql, gq.Render(p.tables[t]), prefix)
+				if o.Failed() || o.GPanic != "" {
+					r.Fail("C20|concurrent-reader|"+o.Status(), fmt.Sprintf("%s: %s %v %s%s", what, o.Status(), o.Err, o.Panic, o.GPanic), cs)
+					return false
+				}
+				if len(o.Rows) != len(p.tables[t]) {
+					r.Fail("C20|concurrent-reader|rows", fmt.Sprintf("%s: %d rows", what, len(o.Rows)), cs)
+					return false
+				}
+				var prev any
+				for k, row := range o.Rows {
+					m, _ := row.(map[string]any)
+					a := p.tables[t][k].(map[string]any)["a"]
+					if m == nil || m["a"] != a || m["g"] != a {
+						r.Fail("C20|concurrent-reader|stale-read", fmt.Sprintf("%s: row %d is %s: GETVAR('k1') right after SETVAR('k1', %v) must return %v", what, k, gq.Render(row), a, a), cs)
+						return false
+					}
+					if g0, ok := m["g0"]; ok && g0 != prev {
+						r.Fail("C20|concurrent-reader|stale-read", fmt.Sprintf("%s: row %d is %s: GETVAR('k1') before the row's write must return the previous row's value %v", what, k, gq.Render(row), prev), cs)
+						return false
+					}
+					if pv, ok := m["p"]; ok && pv != "seed" {
+						r.Fail("C20|concurrent-reader|stale-read", fmt.Sprintf("%s: row %d is %s: nobody writes K2, a concurrent GETVAR('K2') must return \"seed\"", what, k, gq.Render(row)), cs)
+						return false
+					}
+					if _, ok := m["SETVAR('k1', a)"]; ok || len(m) > 4 {
+						r.Fail("C20|concurrent-reader|setvar-column", fmt.Sprintf("%s: row %d is %s", what, k, gq.Render(row)), cs)
+						return false
+					}
+					prev = a
+				}
+				if vars["k1"] != prev {
+					r.Fail("C20|concurrent-reader|final-map", fmt.Sprintf("%s: caller's map is %s, the last write to k1 stored %v", what, gq.Render(vars), prev), cs)
+					return false
+				}
+				return true
+			})
+		r.Execs += st.Execs
+		r.Transitions += st.Transitions
+		r.States += int64(len(st.States))
+		if st.Capped {
+			r.Capped = true
+		}
+		if st.Execs > 1 {
+			r.Nontrivial = true
+		}
+	}
+}
+
 func (p *c20) RunCase(i int) *core.CaseResult {
 	r := &core.CaseResult{}
+	if i >= len(p.lists)+len(p.fails) {
+		p.runPeek(r, p.peeks[i-len(p.lists)-len(p.fails)])
+		return r
+	}
+	if i >= len(p.lists) {
+		p.runFail(r, &p.fails[i-len(p.lists)])
+		return r
+	}
 	type node struct {
 		init int
 		path []c20query
@@ -342,8 +561,8 @@ func (p *c20) reExec(r *core.CaseResult, i int) {
 
 func (p *c20) Meta() core.Meta {
 	return core.Meta{
-		Rule:        "explicit-state search over the shared variable map: one case per first select list (every sequence of 1..3 operations over {SETVAR(k1,1), SETVAR(k1,a), SETVAR(K2,'x'), GETVAR(k1), GETVAR(K2), SETVAR(k1,GETVAR(K2)), SETVAR(k1,'1'), (SELECT SETVAR(k1,7), 1 AS one FROM dual)}) run on 4 tables (0-3 rows) with/without WHERE from 3 initial maps; every distinct reached map is expanded breadth-first by every follow-up query (sequences of <= 2 operations x tables x WHERE) to depth 2 (thorough 3); a successor is the shortest path replayed on a fresh map plus one query; every step is compared with a sequential register model (rows, absence of SETVAR columns, caller's map); every first query that reads is also executed, followed by another query and a write by the caller on the same map, and then executed again as the same Query object. non-trivial = the first query ran on a non-empty table and left a non-empty map",
-		Assumptions: []string{"evaluation order = rows in source order, select-list items left to right (the property's statement)", "values stored are numbers and strings; keys are string literals"},
+		Rule:        "explicit-state search over the shared variable map: one case per first select list (every sequence of 1..3 operations over {SETVAR(k1,1), SETVAR(k1,a), SETVAR(K2,'x'), GETVAR(k1), GETVAR(K2), SETVAR(k1,GETVAR(K2)), SETVAR(k1,'1'), (SELECT SETVAR(k1,7), 1 AS one FROM dual)}) run on 4 tables (0-3 rows) with/without WHERE from 3 initial maps; every distinct reached map is expanded breadth-first by every follow-up query (sequences of <= 2 operations x tables x WHERE) to depth 2 (thorough 3); a successor is the shortest path replayed on a fresh map plus one query; every step is compared with a sequential register model (rows, absence of SETVAR columns, caller's map); every first query that reads is also executed, followed by another query and a write by the caller on the same map, and then executed again as the same Query object. Failure family: every select list of <= 2 plain operations with a RAISE_WHEN(a = x, 'boom') at every position, firing on every row or on none, every operation evaluated immediately or deferred with AWAIT, on 3 tables from 3 initial maps: the query fails iff the model's evaluation reaches a firing RAISE_WHEN, the caller's map holds exactly the writes evaluated before it, and a later query reads them. Concurrent family: 3 queries whose select list runs ASYNC / SPINASYNC calls that read (GetVarFunc) or write another key of (SetVarFunc) the same store next to the query's own SETVAR / GETVAR, under every schedule within 2 (thorough 3) preemptions: a GETVAR right after a SETVAR on the evaluating goroutine returns the value just written. non-trivial = the first query ran on a non-empty table and left a non-empty map",
+		Assumptions: []string{"evaluation order = rows in source order, select-list items left to right (the property's statement)", "values stored are numbers and strings; keys are string literals", "evaluation stops at the first failing step: a SETVAR that comes after it in evaluation order (later item, later row; for AWAIT-deferred lists the same order, at the end of the query) is not evaluated and writes nothing"},
 		Bounds:      map[string]any{"first_lists": len(p.lists), "followup_queries": len(p.queries), "depth": p.depth},
 		Exhaustive:  true,
 	}
